@@ -118,6 +118,10 @@ async fn remote_peer(
     let mut wanted: Vec<usize> = vec![];
     let mut outstanding: Vec<(usize, usize, usize)> = vec![];
     let mut asked_unowned = false;
+    // 'chokelast': an honest seeder that chokes the client just before it sends the final block of each piece (the block
+    // is still delivered: it was in flight) and unchokes again 200 ms later
+    let chokelast = behaviour == "chokelast";
+    let mut unchoke_again_at: Option<tokio::time::Instant> = None;
     // (the client buffers its Have messages for a peer that chokes it, so the leech unchokes the client as well)
     if leech && !(write_chunked(&mut io, &frame(2, &[]), &mut rng, slow).await && write_chunked(&mut io, &frame(1, &[]), &mut rng, slow).await) {
         return;
@@ -254,6 +258,13 @@ async fn remote_peer(
                             }
                         }
                     }
+                    if chokelast && b + l == pieces[i].len() {
+                        unchoked_them = false;
+                        unchoke_again_at = Some(tokio::time::Instant::now() + Duration::from_millis(200));
+                        if !write_chunked(&mut io, &frame(0, &[]), &mut rng, slow).await {
+                            return;
+                        }
+                    }
                     let mut data = pieces[i][b..b + l].to_vec();
                     if behaviour == "corrupt" && arg > 0 && blocks % arg == 0 && !data.is_empty() {
                         data[0] ^= 0x55;
@@ -334,6 +345,13 @@ async fn remote_peer(
                 return;
             }
             _ = tokio::time::sleep_until(unchoke_at), if spontaneous && announced && !unchoked_them => {
+                unchoked_them = true;
+                if !write_chunked(&mut io, &frame(1, &[]), &mut rng, slow).await {
+                    return;
+                }
+            }
+            _ = tokio::time::sleep_until(unchoke_again_at.unwrap_or(leave_at)), if unchoke_again_at.is_some() => {
+                unchoke_again_at = None;
                 unchoked_them = true;
                 if !write_chunked(&mut io, &frame(1, &[]), &mut rng, slow).await {
                     return;
